@@ -99,15 +99,13 @@ pub fn ensure_unique_type_paths(types: &mut PortableRegistry) -> Result<(), Type
 /// - If the corresponding TypeDefs (shape of type) is different, they are different.
 /// - Else, recurse through any contained type IDs and start from the top.
 pub(crate) fn types_equal(a: u32, b: u32, types: &PortableRegistry) -> bool {
-    let mut a_visited = HashSet::new();
-    let mut b_visited = HashSet::new();
+    let mut visited = HashSet::new();
     types_equal_inner(
         a,
         &GenericsList::empty(),
-        &mut a_visited,
         b,
         &GenericsList::empty(),
-        &mut b_visited,
+        &mut visited,
         types,
     )
 }
@@ -116,10 +114,9 @@ pub(crate) fn types_equal(a: u32, b: u32, types: &PortableRegistry) -> bool {
 fn types_equal_inner(
     a: u32,
     a_parent_params: &GenericsList,
-    a_visited: &mut HashSet<u32>,
     b: u32,
     b_parent_params: &GenericsList,
-    b_visited: &mut HashSet<u32>,
+    visited: &mut HashSet<(u32, u32)>,
     types: &PortableRegistry,
 ) -> bool {
     // IDs are the same; types must be identical!
@@ -127,19 +124,10 @@ fn types_equal_inner(
         return true;
     }
 
-    // Make note of these IDs in case we recurse and see them again.
-    let seen_a = !a_visited.insert(a);
-    let seen_b = !b_visited.insert(b);
-
-    // One type is recursive and the other isn't; they are different.
-    // If neither type is recursive, we keep checking.
-    if seen_a != seen_b {
-        return false;
-    }
-
-    // Both types are recursive, and they look the same based on the above,
-    // so assume all is well, since we've already checked other things in prev recursion.
-    if seen_a && seen_b {
+    // Make note of this pair of IDs in case we recurse and see it again: a pair that
+    // is already being compared further up is assumed equal here (any difference is
+    // found by that comparison itself).
+    if !visited.insert((a, b)) {
         return true;
     }
 
@@ -153,7 +141,7 @@ fn types_equal_inner(
     // Capture a few variables to avoid some repetition later when we recurse.
     let mut types_equal_recurse =
         |a: u32, a_params: &GenericsList, b: u32, b_params: &GenericsList| -> bool {
-            types_equal_inner(a, a_params, a_visited, b, b_params, b_visited, types)
+            types_equal_inner(a, a_params, b, b_params, visited, types)
         };
 
     // We'll lazily extend our type params only if the shapes match.
